@@ -62,7 +62,7 @@ class C17(Prop):
             'through findall/once/negation whose inner search is too deep; two-goal conjunctions) with generated sizes, '
             'plus random generic programs, x recursion limits from 25 to 465 frames above the caller x projection '
             'functions that return the answer, raise ValueError / a RuntimeError subclass at answer k, or recurse deeply '
-            'themselves. Oracles: no RecursionError (or other exception than the projection\'s own non-RuntimeError) '
+            'themselves x the interpreter\'s own limit before the call (generous, or LOWER than the requested limit). Oracles: no RecursionError (or other exception than the projection\'s own non-RuntimeError) '
             'escapes; if a plain loop with the identical frame shape completes under the same limit, the result equals '
             'that list and R\'s answers; otherwise it agrees with R\'s answer prefix; the result under limit L and the '
             'result under L + 600 are prefix-comparable (both are prefixes of the one true sequence); afterwards '
@@ -84,6 +84,7 @@ class C17(Prop):
         X, Y = ('v', 'X'), ('v', 'Y')
         text = FAMILY
         clauses = None
+        dyn = []
         if k == 0:
             q = ('f', 'q', (X,))
         elif k == 1:
@@ -112,17 +113,28 @@ class C17(Prop):
             q = ('f', 'ng', (peano(n), X))
         elif k == 13:
             q = ('f', 'two', (X, peano(n)))
+        elif k == 14:
+            # dynamic facts of arity 2: an earlier argument binds a query variable, a later argument is deep
+            q = ('f', 'route', (X, mklist([('a', 'a')] * n)))
+            deep = mklist([('a', 'a')] * n)
+            dyn = src.pick([[('f', 'route', (('a', 'k1'), ('v', '_1'))), ('f', 'route', (('a', 'k2'), ('v', '_2')))],
+                            [('f', 'route', (('a', 'k1'), deep)), ('f', 'route', (('a', 'k2'), mklist([('a', 'a')] * (n + 1))))],
+                            [('f', 'route', (('a', 'k1'), ('v', '_1'), deep)), ('f', 'route', (('a', 'k2'), ('v', '_2'), ('a', 'x')))]])
+            if len(dyn[0][2]) == 3:
+                q = ('f', 'route', (X, deep, Y))
         else:
             preds, clauses = gen.gen_program(src, self.CFG)
             q = gen.gen_query(src, preds, self.CFG, clauses)
             text = gen.program_text(clauses)
         proj = src.pick(['value', 'value', 'value', 'raise-value', 'raise-runtime', 'deep-recursion'])
         return {'text': text, 'clauses': clauses, 'query': q, 'limit_delta': 25 + src.n(6) * src.n(6) * 16 + src.n(40),
-                'proj': proj, 'k': src.n(5), 'proj_depth': src.pick([5, 40, 200, 2000])}
+                'proj': proj, 'k': src.n(5), 'proj_depth': src.pick([5, 40, 200, 2000]), 'dyn': dyn,
+                'interpreter_limit': src.pick(['high', 'high', 'low'])}
 
     def sample_view(self, case):
         return {'program': 'family' if case['clauses'] is None else case['text'], 'query': show(tt(case['query'])) if len(repr(case['query'])) < 600 else repr(case['query'])[:200] + '...',
-                'limit_above_caller': case['limit_delta'], 'projection': case['proj'], 'k': case['k']}
+                'limit_above_caller': case['limit_delta'], 'projection': case['proj'], 'k': case['k'], 'interpreter_limit_before': case.get('interpreter_limit', 'high'),
+                'dynamic_facts': len(case.get('dyn') or [])}
 
     def case_key(self, case):
         return repr((case['text'] if case['clauses'] else 'family', case['query'], case['limit_delta'], case['proj'], case['k'], case['proj_depth']))
@@ -136,12 +148,15 @@ class C17(Prop):
                 yield dict(case, limit_delta=d2)
 
     # ------------------------------------------------------------------
-    def run_once(self, code, q, delta, proj_kind, k, proj_depth, mode):
+    def run_once(self, code, q, delta, proj_kind, k, proj_depth, mode, dyn=(), interp='high'):
         """mode 'bounded' -> YP.evaluate_bounded; mode 'plain' -> plain loop with the identical frame shape.
         returns dict(result, completed, escaped, limit_after, bound_after, boundvars_after)"""
         gc.collect()
         yp = impl.YP()
         yp.load_script_from_string(code)
+        for t in dyn:
+            vm = {}
+            yp.assert_fact(yp.atom(t[1]), [impl.to_engine(yp, x, vm) for x in t[2]])
         name, args = impl.goal_parts(q)
         vmap = {}
         eargs = [impl.to_engine(yp, a, vmap) for a in args]
@@ -170,6 +185,10 @@ class C17(Prop):
         limit = base + delta
         impl.WORK['n'] = 0
         impl.WORK['limit'] = 3000000
+        if interp == 'low':
+            # the interpreter's own limit is LOWER than the requested one: evaluate_bounded must still search up to
+            # the requested depth
+            sys.setrecursionlimit(base + 60)
         try:
             if mode == 'bounded':
                 out['result'] = yp.evaluate_bounded(g, proj, recursion_limit=limit)
@@ -190,7 +209,11 @@ class C17(Prop):
         finally:
             out['limit_after'] = sys.getrecursionlimit()
             sys.setrecursionlimit(old)
-        # the caller still holds g (documented usage); variables must be unbound all the same
+        if interp == 'low':
+            out['expected_limit_low'] = base + 60
+        # the caller still holds g (documented usage); the query variables must be unbound all the same - at once,
+        # not only after a garbage collection
+        out['query_vars_bound_immediately'] = sum(1 for v in vmap.values() if impl.get_value(v) is not v)
         gc.collect()
         out['bound_after'] = len(impl.bound_variables())
         g.close()
@@ -237,7 +260,16 @@ class C17(Prop):
         ref = [impl.flat_ref(a[2] if a[0] == 'f' else ()) for a in ref]
         detail = self.sample_view(case)
         kind, k, delta = case['proj'], case['k'], case['limit_delta']
-        a = self.run_once(code, q, delta, kind, k, case['proj_depth'], 'bounded')
+        dyn = tt(case.get('dyn') or [])
+        interp = case.get('interpreter_limit', 'high')
+        if dyn:
+            def setup(it):
+                for t in dyn:
+                    it.assert_fact(t)
+            st, ref, it = C.run_ref(clauses, q, max_steps=6000, max_depth=400, limit=40, setup=setup)
+            ref_terms = ref
+            ref = [impl.flat_ref(x[2] if x[0] == 'f' else ()) for x in ref]
+        a = self.run_once(code, q, delta, kind, k, case['proj_depth'], 'bounded', dyn, interp)
         detail['reference_answers'] = C.answers_view(ref_terms[:6]) + (['...'] if len(ref) > 6 else [])
         detail['reference_status'] = st
         if a['escaped'] == 'work-budget':
@@ -248,6 +280,10 @@ class C17(Prop):
             return FAIL('unexpected-exception', detail)
         if kind == 'raise-value' and a['escaped'] is None and len(a['result']) > k and (st != 'done' or len(ref) > k):
             return FAIL('projection-exception-swallowed', dict(detail, result=[str(x)[:200] for x in a['result'][:6]]))
+        if interp == 'low':
+            a['expected_limit'] = a['expected_limit_low']
+        if a['query_vars_bound_immediately']:
+            return FAIL('query-variables-bound-right-after-the-call', dict(detail, bound=a['query_vars_bound_immediately']))
         if a['limit_after'] != a['expected_limit']:
             return FAIL('recursion-limit-not-restored', dict(detail, before=a['expected_limit'], after=a['limit_after']))
         if a['bound_after']:
@@ -263,7 +299,7 @@ class C17(Prop):
             if st == 'done' and len(res) > len(ref):
                 return FAIL('result-has-extra-answers', dict(detail, result=[str(x)[:200] for x in res[:6]]))
             if kind == 'value':
-                p = self.run_once(code, q, delta, kind, k, case['proj_depth'], 'plain')
+                p = self.run_once(code, q, delta, kind, k, case['proj_depth'], 'plain', dyn)
                 if p['completed'] is True:
                     if res != p['result']:
                         return FAIL('differs-from-plain-loop-under-the-same-limit', dict(detail, result=len(res), plain=len(p['result'])))
@@ -276,7 +312,7 @@ class C17(Prop):
                     if p['result'] != res:
                         return FAIL('differs-from-plain-loop-under-the-same-limit', dict(detail, result=len(res), plain=len(p['result'])))
                 # metamorphic: a larger limit gives a prefix-comparable result
-                b = self.run_once(code, q, delta + 600, kind, k, case['proj_depth'], 'bounded') if (struck or st != 'done') else {'result': None}
+                b = self.run_once(code, q, delta + 600, kind, k, case['proj_depth'], 'bounded', dyn) if (struck or st != 'done') else {'result': None}
                 if b['result'] is not None:
                     m = min(len(res), len(b['result']))
                     if res[:m] != b['result'][:m]:
